@@ -188,3 +188,18 @@ Example C10_ic3_example :
   (* a counterexample chain: with bad = 2 the obligations (2,2) <- (1,1) <- (0,0) end at frame 0 *)
   block_step nat tr1 ((0, 0) :: (1, 1) :: nil) (Sat nat 0) = CounterExample nat 0.
 Proof. vm_compute. repeat split. Qed.
+
+(** Blocking a predicate [g] in the frames 0 .. k keeps the frame invariants for ANY representation
+    of the frames: [g] must exclude every initial state and, for k >= 1, be inductive relative to
+    frame k-1.  With [init] read as "successor of an initial valuation" and [Fr i] as R_{i+1} this
+    is the side condition of the repaired pdr.rs (patches/0001-fix-pdr-init-reads-input.diff):
+    blocking at R_1 needs only the query R_0 /\ T /\ g' to be unsatisfiable. *)
+Theorem C10_ic3_block_sem :
+  forall (St : Type) (init bad : St -> bool) (trans : St -> St -> bool) (Fr : nat -> St -> bool) (N k : nat)
+         (g : St -> bool),
+    frames_ok St init bad trans Fr N -> k <= N ->
+    (forall s, init s = true -> g s = false) ->
+    (forall s s', 1 <= k -> Fr (pred k) s = true -> g s = false -> trans s s' = true -> g s' = false) ->
+    frames_ok St init bad trans (strengthen St Fr k g) N.
+Proof. exact strengthen_frames_ok. Qed.
+Print Assumptions C10_ic3_block_sem.
